@@ -244,6 +244,18 @@ func (e *Eng) iterate(fr *Frame, c *ssa.CallCommon, kind, t string, clo *Val, in
 			}
 		}
 	}
+	if fr.fspec == nil {
+		// the iteration sits in a helper without a contract that was inlined here: iteration invariants of the enclosing
+		// contract name that function's locals and cannot be carried over; without them nothing can be said
+		if sfr, _ := fr.specFrame(); sfr != nil {
+			for _, s := range sfr.fspec.Sites {
+				if s.Kind == "call" && s.Callee == name && s.Iter {
+					e.errf("the %s iteration that %s's iteration invariants describe now sits in the helper %s: contract and code are out of step (undecided)", name, sfr.fspec.Key, fnKey(fr.fn))
+					break
+				}
+			}
+		}
+	}
 	evalInvs := func(s *State, visited, stopped string) []string {
 		var out []string
 		for _, iv := range invs {
